@@ -139,6 +139,12 @@ func scenario(p Params) *vexplore.Scenario {
 			setup := func(e *vsync.Exec) {
 				vsync.ProbeFn = func(site string, recv any) {
 					if strings.HasSuffix(site, ".Close") {
+						if closed[recv] {
+							// a second Close unmaps the header's address range again - which by then may belong to
+							// the mapping of a reloaded header; stop before the real munmap happens
+							monitor = append(monitor, "index header closed twice (second munmap of a range that may have been re-used by a reloaded header)")
+							panic("verif monitor: double close of an index header")
+						}
 						closed[recv] = true
 						return
 					}
